@@ -331,7 +331,37 @@ def c12_case(args):
             asg[k] = concretize(v, m)
         return {"kind": "reflection", "template": tname, "assignment": to_json(asg)}
 
+    def body_a():
+        first = fcp.reflection()
+        return first, fcp.reflection()
+
     try:
+        # phase A (cheap): the record alone, on every path; a case that is already red here does not go on to the
+        # expensive serialisation phase (a change that makes reflection() branch on symbolic leaves multiplies the paths)
+        eng_a = Engine(timeout_ms=240000 if tier == "quick" else 600000, max_paths=2000)
+        red = False
+        for pi, (kind, out, pc) in enumerate(serde_checks._explore(eng_a, body_a, P.assume, cov)):
+            ob = f"{feats['desc']}|A{pi}"
+            if kind == "exc":
+                continue        # judged in phase B (same exception there)
+            first, rec = out
+            try:
+                exp = reference_record(fcp, declared)
+                faithful = z3.And(refspec.eq_value(rsch, T, first, exp), refspec.eq_value(rsch, T, rec, exp))
+            except Exception:
+                faithful = z3.BoolVal(False)
+            r_, _ = eng_a.check(z3.Not(faithful), pc=list(pc))
+            if r_ == "sat":
+                decide(eng_a, pc, z3.Not(faithful), prop="C12", ob_id=ob + "|faithful", res=res, known=known, features=feats,
+                       env=env(), make_replay=mk, what=f"reflection record differs from the declared schema on {tname}")
+                if res["violations"]:
+                    red = True
+                    break
+        finish_engine(res, eng_a)
+        if red:
+            res["functions"] = sorted(cov.seen)
+            res["sample"] = {"template": tname, "string_lengths": list(strlen), "stopped_after_phase_A": True}
+            return res
         for pi, (kind, out, pc) in enumerate(serde_checks._explore(eng, body, P.assume, cov)):
             ob = f"{feats['desc']}|path{pi}"
             if kind == "exc":
